@@ -672,6 +672,14 @@ def func_builder(res_vals: defaultdict, *mvs, funcname: str) -> CodegenOutput:
     return CodegenOutput(tuple(res_vals.keys()), func)
 
 
+class ReciprocalLambdaPrinter(LambdaPrinter):
+    """ Prints negative integer powers as a division: numpy refuses :code:`b**(-2)` for integer dtypes. """
+    def _print_Pow(self, expr, **kwargs):
+        if expr.exp.is_Integer and expr.exp.is_negative:
+            return f'(1/({self._print(1 / expr)}))'
+        return super()._print_Pow(expr, **kwargs)
+
+
 def lambdify(args: dict, exprs: list, funcname: str, dependencies: tuple = None, printer=LambdaPrinter, dummify=False, cse=False):
     """
     Function that turns symbolic expressions into Python functions. Heavily inspired by
@@ -715,7 +723,7 @@ def lambdify(args: dict, exprs: list, funcname: str, dependencies: tuple = None,
     :return: Function that represents that can be used to calculate the values of exprs.
     """
     if printer is LambdaPrinter:
-        printer = LambdaPrinter(
+        printer = ReciprocalLambdaPrinter(
             {'fully_qualified_modules': False, 'inline': True,
              'allow_unknown_functions': True,
              'user_functions': {}}
